@@ -1,13 +1,216 @@
-//! The real mock_omaha_server::handle_request, called in-process (C17).
+//! C17: the real mock_omaha_server::handle_request, called in-process through the transport
+//! seam (absolute-form URI converted to origin-form, as an HTTP client would).
+
+use crate::hist::*;
+use crate::refserver::{keys, parse_cup2key, cup2key_of};
 use crate::world::*;
-use serde_json::Value;
+use mock_omaha_server::{OmahaResponse, OmahaServerBuilder, PrivateKeyAndId, PrivateKeys, ResponseAndMetadata, UpdateCheckAssertion};
+use omaha_client::cup_ecdsa::{Cupv2RequestHandler, Nonce, PublicKeyAndId, PublicKeys, RequestMetadata, StandardCupv2Handler};
+use serde_json::{json, Value};
+use std::collections::HashMap;
+use std::sync::Arc;
+
+pub const KINDS: [&str; 5] = ["NoUpdate", "Update", "UrgentUpdate", "InvalidResponse", "InvalidURL"];
+
+fn kind_of(s: &str) -> OmahaResponse {
+    match s {
+        "NoUpdate" => OmahaResponse::NoUpdate,
+        "Update" => OmahaResponse::Update,
+        "UrgentUpdate" => OmahaResponse::UrgentUpdate,
+        "InvalidResponse" => OmahaResponse::InvalidResponse,
+        _ => OmahaResponse::InvalidURL,
+    }
+}
+
+/// Configure the in-process mock for this run's apps and key set.
+pub fn setup(w: &mut World, app_ids: &[String], app_versions: &[String], cup: bool, disable_updates: bool) {
+    let mut map: HashMap<String, ResponseAndMetadata> = HashMap::new();
+    w.server.mock_cfg.clear();
+    let weights = [40u32, 30, 10, 10, 10];
+    for (i, id) in app_ids.iter().enumerate() {
+        let k = KINDS[w.draws.weighted(&format!("setup/mock/app#{i}/kind"), &weights)];
+        let version = if w.draws.draw(&format!("setup/mock/app#{i}/version_check"), 2) == 1 { Some(app_versions[i].clone()) } else { None };
+        map.insert(
+            id.clone(),
+            ResponseAndMetadata {
+                response: kind_of(k),
+                check_assertion: if disable_updates { UpdateCheckAssertion::UpdatesDisabled } else { UpdateCheckAssertion::UpdatesEnabled },
+                version,
+                cohort_assertion: None,
+                codebase: format!("fuchsia-pkg://mock.example.test/{i}/"),
+                package_name: format!("update{i}?hash=ab"),
+            },
+        );
+        w.server.mock_cfg.insert(id.clone(), k.to_string());
+    }
+    let sk = &w.server.server_keys;
+    let pk = PrivateKeys {
+        latest: PrivateKeyAndId { id: sk[0].0, key: keys()[sk[0].1].clone() },
+        historical: sk[1..].iter().map(|(id, k)| PrivateKeyAndId { id: *id, key: keys()[*k].clone() }).collect(),
+    };
+    let forced = if w.draws.draw("setup/mock/etag_override", 12) == 11 {
+        w.stat("config.mock_forced_etag");
+        Some("forced-etag-value".to_string())
+    } else {
+        None
+    };
+    w.server.mock_forced_etag = forced.is_some();
+    // require_cup makes the mock panic by design when it cannot sign: only meaningful when it
+    // holds the key the client uses
+    let holds = w.server.server_keys.iter().any(|(id, _)| *id == w.server.client_latest.0);
+    let require_cup = cup && holds && w.draws.draw("setup/mock/require_cup", 2) == 1;
+    let server = OmahaServerBuilder::default()
+        .responses_by_appid(map)
+        .private_keys(pk)
+        .etag_override(forced)
+        .require_cup(require_cup)
+        .build()
+        .expect("mock server");
+    w.server.mock = Some(Arc::new(tokio::sync::Mutex::new(server)));
+}
+
+fn origin_form(uri: &str) -> String {
+    // scheme://authority[/path][?query] -> /path?query
+    let rest = uri.split_once("://").map(|x| x.1).unwrap_or(uri);
+    match rest.find(|c| c == '/' || c == '?') {
+        Some(i) => {
+            let pq = &rest[i..];
+            if pq.starts_with('?') {
+                format!("/{pq}")
+            } else {
+                pq.to_string()
+            }
+        }
+        None => "/".to_string(),
+    }
+}
+
+fn call_mock(
+    server: &Arc<tokio::sync::Mutex<mock_omaha_server::OmahaServer>>,
+    path: &str,
+    body: Vec<u8>,
+) -> Result<(u16, Vec<(String, Vec<u8>)>, Vec<u8>), String> {
+    let req = hyper::Request::builder().method("POST").uri(path).body(hyper::Body::from(body)).map_err(|e| e.to_string())?;
+    let server = server.clone();
+    let r = std::panic::catch_unwind(std::panic::AssertUnwindSafe(|| {
+        let _g = SutGuard::enter();
+        futures::executor::block_on(async move {
+            let resp = mock_omaha_server::handle_request(req, &server).await.map_err(|e| e.to_string())?;
+            let (parts, body) = resp.into_parts();
+            let bytes = hyper::body::to_bytes(body).await.map_err(|e| e.to_string())?.to_vec();
+            let headers: Vec<(String, Vec<u8>)> = parts.headers.iter().map(|(k, v)| (k.as_str().to_string(), v.as_bytes().to_vec())).collect();
+            Ok::<_, String>((parts.status.as_u16(), headers, bytes))
+        })
+    }));
+    match r {
+        Ok(x) => x,
+        Err(_) => {
+            let pi = crate::take_last_panic();
+            Err(format!("PANIC {}", pi.map(|p| format!("{} at {}", p.msg, p.location)).unwrap_or_default()))
+        }
+    }
+}
+
+/// An admin client reconfigures the responses (POST /set_responses_by_appid).
+pub fn reconfigure(w: &mut World, n: u32) {
+    let server = match &w.server.mock {
+        Some(s) => s.clone(),
+        None => return,
+    };
+    let ids: Vec<String> = w.server.mock_cfg.keys().cloned().collect();
+    let mut cfg = serde_json::Map::new();
+    let mut newcfg = std::collections::BTreeMap::new();
+    let dis = w.server.mock_disable_updates;
+    for (i, id) in ids.iter().enumerate() {
+        let k = KINDS[w.draws.weighted(&format!("admin#{n}/app#{i}/kind"), &[30, 40, 10, 10, 10])];
+        cfg.insert(
+            id.clone(),
+            json!({
+                "response": k,
+                "check_assertion": if dis { "UpdatesDisabled" } else { "UpdatesEnabled" },
+                "version": Value::Null,
+                "cohort_assertion": Value::Null,
+                "codebase": format!("fuchsia-pkg://mock.example.test/r{n}/{i}/"),
+                "package_name": format!("update{i}?hash=cd"),
+            }),
+        );
+        newcfg.insert(id.clone(), k.to_string());
+    }
+    let body = serde_json::to_vec(&Value::Object(cfg)).unwrap();
+    match call_mock(&server, "/set_responses_by_appid", body) {
+        Ok((200, _, _)) => {
+            w.server.mock_cfg = newcfg;
+            w.server.mock_cfg_epoch += 1;
+            w.stat("admin.reconfigured");
+            let cfgs = format!("{:?}", w.server.mock_cfg);
+            w.rec(Kind::Note(format!("mock reconfigured #{n}: {cfgs}")));
+        }
+        other => {
+            let what = format!("reconfiguration #{n} failed: {:?}", other.map(|x| x.0));
+            w.rec(Kind::MockFailure { id: u64::MAX, what });
+        }
+    }
+}
 
 #[allow(clippy::type_complexity)]
-pub fn handle(
-    _w: &mut World,
-    _id: u64,
-    _label: &str,
-    _req: &SentReq,
-) -> Option<(u16, Vec<(String, Vec<u8>)>, Vec<u8>, Option<Value>)> {
-    None
+pub fn handle(w: &mut World, id: u64, _label: &str, req: &SentReq) -> Option<(u16, Vec<(String, Vec<u8>)>, Vec<u8>, Option<Value>)> {
+    let server = w.server.mock.clone()?;
+    let path = origin_form(&req.uri);
+    let cfg_now = w.server.mock_cfg.clone();
+    w.rec(Kind::ServerHandled { id, server: format!("mock:{:?}", cfg_now) });
+    match call_mock(&server, &path, req.body.clone()) {
+        Ok((status, headers, body)) => {
+            let doc: Option<Value> = serde_json::from_slice(&body).ok();
+            // does the client's parser accept the body?
+            let parses = {
+                let _g = SutGuard::enter();
+                omaha_client::protocol::response::parse_json_response(&body).is_ok()
+            };
+            // does the client's verifier accept the ETag for this exchange, and for another one?
+            let mut own: Option<bool> = None;
+            let mut other: Option<bool> = None;
+            if let Some((kid, nonce_hex)) = cup2key_of(&req.uri).as_deref().and_then(parse_cup2key) {
+                if let Ok(nb) = hex::decode(&nonce_hex) {
+                    if nb.len() == 32 {
+                        let mut arr = [0u8; 32];
+                        arr.copy_from_slice(&nb);
+                        let ks = keys();
+                        let pk = PublicKeys {
+                            latest: PublicKeyAndId { id: w.server.client_latest.0, key: ks[w.server.client_latest.1].verifying_key() },
+                            historical: w.server.client_historical.iter().map(|(i, k)| PublicKeyAndId { id: *i, key: ks[*k].verifying_key() }).collect(),
+                        };
+                        let handler = StandardCupv2Handler::new(&pk);
+                        let mut b = http::Response::builder().status(status);
+                        for (k, v) in &headers {
+                            if let Ok(hv) = http::HeaderValue::from_bytes(v) {
+                                b = b.header(k.as_str(), hv);
+                            }
+                        }
+                        let resp = b.body(body.clone()).unwrap();
+                        let meta = RequestMetadata { request_body: req.body.clone(), public_key_id: kid, nonce: Nonce::from(arr) };
+                        own = Some({
+                            let _g = SutGuard::enter();
+                            handler.verify_response(&meta, &resp, kid).is_ok()
+                        });
+                        if let Some((pbody, pkid, pnonce)) = w.server.prev_exchange.clone() {
+                            let pmeta = RequestMetadata { request_body: pbody, public_key_id: pkid, nonce: Nonce::from(pnonce) };
+                            other = Some({
+                                let _g = SutGuard::enter();
+                                handler.verify_response(&pmeta, &resp, pkid).is_ok()
+                            });
+                        }
+                        w.server.prev_exchange = Some((req.body.clone(), kid, arr));
+                    }
+                }
+            }
+            let forced_etag = w.server.mock_forced_etag;
+            w.rec(Kind::MockAnswer { id, parses, own, other, cfg: cfg_now, forced_etag });
+            Some((status, headers, body, doc))
+        }
+        Err(e) => {
+            w.stat("mock.crashed");
+            w.rec(Kind::MockFailure { id, what: format!("{:?} request to {}: {e}", req.kind, path) });
+            None
+        }
+    }
 }
